@@ -7,17 +7,31 @@ from .facts import strip_generics
 STD_CRATES = ("std", "core", "alloc")
 
 
+_ANON = [False]
+
+
+def render_sig(ft, t):
+    """name-free, shallow rendering: identifies an obligation independently of how locals are called"""
+    _ANON[0] = True
+    try:
+        return render(ft, t, 6)     # one level: the operation / callee and "_" for whatever it is applied to
+    finally:
+        _ANON[0] = False
+
+
 def render(ft, t, depth=0):
     """position-free rendering of a term: locals by their source names, no block numbers"""
     if not isinstance(t, tuple) or not t:
         return str(t)
     if depth > 6:
-        return ".."
+        return "_" if _ANON[0] else ".."
     tag = t[0]
     d = depth + 1
     L = ft.fn["locals"]
 
     def lname(i):
+        if _ANON[0]:
+            return ("arg%d" % i) if 1 <= i <= ft.fn.get("arg_count", 0) else "_"
         return L[i].get("name") or ("tmp:" + L[i]["ty"].split("::")[-1][:12])
     if tag == "param":
         return lname(t[1])
@@ -38,7 +52,10 @@ def render(ft, t, depth=0):
     if tag == "cast":
         return "(%s as %s)" % (render(ft, t[2], d), t[3])
     if tag == "field":
-        return "%s.%s" % (render(ft, t[1], d), t[2])
+        base = render(ft, t[1], d)
+        if _ANON[0] and base == "_":
+            return "_"      # a component of a local: still "some local value"
+        return "%s.%s" % (base, t[2])
     if tag in ("deref", "ref"):
         return render(ft, t[2] if tag == "ref" else t[1], depth)
     if tag == "payload":
@@ -103,7 +120,7 @@ def check_fn(c):
     eng = c.eng
     counts = {}
 
-    def emit(kind, detail, ok, why, span, terms, status_if_fail=None):
+    def emit(kind, detail, ok, why, span, terms, status_if_fail=None, sig_terms=None):
         if not ok and any(c.av(t_, b)[0] == "b" for t_ in terms):
             ok = True
             why = "dead code in this context (an operand has no possible value): " + why
@@ -112,6 +129,8 @@ def check_fn(c):
         key = "%s|%s|%s" % (kind, c.path, detail) + ("#%d" % n if n else "")
         ob = Oblig()
         ob.key, ob.kind, ob.fn, ob.where = key, kind, c.path, where(span)
+        ob.sig = "%s|%s|%s|%s" % (kind, c.path, detail.split("(")[0].split("[")[0] if kind not in ("CAST", "IDX") else kind,
+                                  " ; ".join(render_sig(ft, t_) for t_ in (sig_terms if sig_terms is not None else terms)))
         ob.float_dep = any(float_dependent(c, t) for t in terms)
         ob.input_dep = any(input_dependent(c, t) for t in terms)
         if ok:
@@ -163,7 +182,7 @@ def check_fn(c):
             vals = ", ".join(show(c.av(o, b)) for o in ops)
             if not ok and kind == "IDX" and len(ops) == 2:
                 ok = prove_index(c, ops[1], None, ops[0], b)
-            emit(kind, detail, ok, "operands %s; condition %s" % (vals, show(v)), t["span"], ops + [cond])
+            emit(kind, detail, ok, "operands %s; condition %s" % (vals, show(v)), t["span"], ops + [cond], None, ops)
         elif t["k"] == "call":
             f = t["func"]
             if f.get("k") != "fn":
@@ -182,7 +201,7 @@ def check_fn(c):
                 base = c.av(args[0], b)
                 base = base[1] if base[0] == "r" else base
                 emit("IDX", "%s[%s]" % (render(ft, args[0]), render(ft, args[1])), ok,
-                     "index %s, length %s" % (show(iv), show(base[1]) if base[0] == "v" else "?"), t["span"], [args[1]])
+                     "index %s, length %s" % (show(iv), show(base[1]) if base[0] == "v" else "?"), t["span"], [args[1]], None, args)
             elif name.startswith("core::num::<impl ") and short == "pow" and len(args) == 2:
                 ty = name[len("core::num::<impl "):].split(">")[0]
                 a, e = c.av(args[0], b), c.av(args[1], b)
